@@ -356,6 +356,19 @@ def run(ctx):
             r = Run(c["program"], sched.replay_chooser(c["schedule"])).execute()
             judge(r, c["schedule"], c["program"], "corpus")
 
+    # activation races: a change of the rule set against the FIRST log of a module (cache miss) followed by a
+    # second log of the same module after the change has returned (the stale entry, if any, is then hit)
+    for ai in range(ctx.n(6, 40) * boost):
+        r0 = rng.fork("act%d" % ai)
+        name = r0.choice(["m", "m.a", "", "n"])
+        mod = r0.choice([m for m in MODULES if name == "" or m == name or m.startswith(name + ".")] or ["n"])
+        kind = r0.choice(["disable", "disable", "enable"])
+        pre = [["disable", name]] if kind == "enable" else []
+        prog = {"handlers": ["DEBUG"], "threads": [pre + [[kind, name]], [["log", mod, "INFO"], ["log", mod, "INFO"]]]}
+        if r0.chance(40):
+            prog["threads"].append([["log", mod, "INFO"]])
+        dfs_schedules(prog, bound=2, limit=ctx.n(60, 600),
+                      on_run=lambda r, pre_, prog=prog: judge(r, pre_, prog, "dfs-activation"))
     nprog = ctx.n(30, 150) * boost
     per_prog = ctx.n(35, 400)
     for pi in range(nprog):
